@@ -21,7 +21,8 @@ for d in sorted(glob.glob(os.path.join(HERE, "seeded", "*"))):
                     "expect": rules[0] if rules else "", "breaks": m["property"]})
 for d in sorted(glob.glob(os.path.join(HERE, "refactors", "R*-r*"))):
     name = os.path.basename(d)
-    out.append({"patch": "../refactors/%s/patch.diff" % name, "kind": "refactor", "properties": AREA[name.split("-")[0]]})
+    k = int(name.split("-")[0][1:])
+    out.append({"patch": "../refactors/%s/patch.diff" % name, "kind": "refactor", "properties": AREA["R%d" % ((k - 1) % 5 + 1)]})
 os.makedirs(os.path.join(HERE, "selftest"), exist_ok=True)
 json.dump(out, open(os.path.join(HERE, "selftest", "corpus.json"), "w"), indent=1)
 print("corpus: %d mutant entries, %d refactor entries" % (sum(1 for e in out if e["kind"] == "mutant"), sum(1 for e in out if e["kind"] == "refactor")))
